@@ -152,6 +152,30 @@ func runBehaviour(t *testing.T, b behaviour, sn1, sn2, clk uint32, sum *summary,
 		if nontrivial {
 			sum.Nontrivial++
 		}
+		hasForge := false
+		for _, st := range b.Steps {
+			if st.A.Name == "Forge" {
+				hasForge = true
+			}
+		}
+		if vh.EnvInt("CORE_SETTLE", 0) == 1 && !hasForge && len(sum.Panics) == 0 {
+			next := [3]int{0, 0, 0}
+			do := func(a Act) Obs {
+				if !w.Enabled(a) {
+					return Obs{}
+				}
+				obs, in := w.Step(a)
+				if a.Name == "Recv" && obs.Ret == -1 {
+					return obs
+				}
+				record(tr, w, a, obs, in)
+				if obs.Panic != "" {
+					sum.Panics = append(sum.Panics, fmt.Sprintf("%s settle %+v: %s", label, a, obs.Panic))
+				}
+				return obs
+			}
+			settlePhase(w, tr, do, false, &next, sum)
+		}
 		forged := false
 		for _, st := range b.Steps {
 			if st.A.Name == "Forge" {
@@ -398,62 +422,12 @@ func drive(t *testing.T, rng *rand.Rand, cfg Cfg, o driveOpts, sum *summary, tf 
 			}
 		}
 		// ---- settling phase (C02/C03): the network heals, readers read ----
-		healAt := w.Elapsed()
-		healSt := [3]KProj{{}, w.Proj(1), w.Proj(2)}
-		drained := func() bool {
-			return w.K[1].WaitSnd() == 0 && w.K[2].WaitSnd() == 0 && w.Rdoff[1] == w.Woff[2] && w.Rdoff[2] == w.Woff[1]
-		}
-		limit := healAt + 300000
 		settle := o.ForgePct == 0 // forged una/ack fields can discard unacknowledged data: C02 is about genuine peers
-		for settle && len(sum.Panics) == 0 && !drained() && w.Elapsed() < limit {
-			for len(w.Net) > 0 {
-				if o.Clean {
-					d := w.Net[0]
-					if at, ok := sentAt[&d.data[0]]; ok && w.Elapsed() < at {
-						break
-					}
-				}
-				do(Act{Name: "Deliver", E: w.Net[0].dst, A: 1, B: 0})
-				if o.Clean {
-					for _, d := range w.Net {
-						if _, ok := sentAt[&d.data[0]]; !ok {
-							sentAt[&d.data[0]] = w.Elapsed() + o.DelayMs
-						}
-					}
-				}
-			}
-			for e := 1; e <= 2; e++ {
-				for do(Act{Name: "Recv", E: e, A: 70000}).Ret >= 0 {
-				}
-				if w.Elapsed() >= next[e] {
-					flushDue(e)
-				}
-			}
-			if drained() {
-				break
-			}
-			if len(w.Net) == 0 || o.Clean {
-				// sleep until the next flush is due
-				d := next[1] - w.Elapsed()
-				if d2 := next[2] - w.Elapsed(); d2 < d {
-					d = d2
-				}
-				if o.Clean && len(w.Net) > 0 {
-					if at := sentAt[&w.Net[0].data[0]] - w.Elapsed(); at < d {
-						d = at
-					}
-				}
-				if d < 1 {
-					d = 1
-				}
-				do(Act{Name: "Tick", A: d})
-			}
-		}
-		tr.Add(map[string]any{"ev": "settled", "checked": settle, "bounded": true, "drained": drained(), "heal": healAt, "now": w.Elapsed(),
-			"heal1": healSt[1], "heal2": healSt[2], "dead": w.Proj(1).State != 0 || w.Proj(2).State != 0,
-			"woff": []int64{w.Woff[1], w.Woff[2]}, "rdoff": []int64{w.Rdoff[1], w.Rdoff[2]}, "panic": len(sum.Panics) > 0})
-		if settle && !drained() {
-			sum.Kinds["not-drained"]++
+		if settle && len(sum.Panics) == 0 {
+			settlePhase(w, tr, do, o.UseUpdate, &next, sum)
+		} else {
+			tr.Add(map[string]any{"ev": "settled", "checked": false, "bounded": false, "drained": false, "heal": w.Elapsed(), "now": w.Elapsed(),
+				"heal1": w.Proj(1), "heal2": w.Proj(2), "end1": w.Proj(1), "end2": w.Proj(2), "panic": len(sum.Panics) > 0})
 		}
 		tf.WriteTrace(map[string]any{"cfg": cfg, "src": label, "clean": o.Clean, "delay": o.DelayMs, "update": o.UseUpdate,
 			"forged": o.ForgePct > 0}, tr)
@@ -762,4 +736,189 @@ func TestCoreActions(t *testing.T) {
 		active = nil
 	})
 	vh.Must(tf.Close())
+}
+
+// settlePhase: faults are over; datagrams are delivered in order at once, both readers read everything, both endpoints
+// are flushed when they ask to be; runs until nothing is outstanding (or 300 virtual seconds). Emits the "settled" line.
+func settlePhase(w *World, tr *vh.Trace, do func(Act) Obs, useUpdate bool, next *[3]int, sum *summary) {
+	healAt := w.Elapsed()
+	heal1, heal2 := w.Proj(1), w.Proj(2)
+	drained := func() bool {
+		return w.K[1].WaitSnd() == 0 && w.K[2].WaitSnd() == 0 && w.Rdoff[1] == w.Woff[2] && w.Rdoff[2] == w.Woff[1]
+	}
+	flushDue := func(e int) {
+		if useUpdate {
+			ob := do(Act{Name: "Update", E: e})
+			next[e] = ob.Drive
+			if next[e] <= w.Elapsed() {
+				next[e] = w.Elapsed() + 1
+			}
+		} else {
+			ob := do(Act{Name: "Flush", E: e})
+			next[e] = w.Elapsed() + ob.Ret
+		}
+	}
+	limit := healAt + 300000
+	for len(sum.Panics) == 0 && !drained() && w.Elapsed() < limit {
+		for len(w.Net) > 0 {
+			do(Act{Name: "Deliver", E: w.Net[0].dst, A: 1, B: 0})
+		}
+		for e := 1; e <= 2; e++ {
+			for do(Act{Name: "Recv", E: e, A: 1 << 20}).Ret >= 0 {
+			}
+			if w.Elapsed() >= next[e] {
+				flushDue(e)
+			}
+		}
+		if drained() {
+			break
+		}
+		if len(w.Net) == 0 {
+			d := next[1] - w.Elapsed()
+			if d2 := next[2] - w.Elapsed(); d2 < d {
+				d = d2
+			}
+			if d < 1 {
+				d = 1
+			}
+			do(Act{Name: "Tick", A: d})
+		}
+	}
+	tr.Add(map[string]any{"ev": "settled", "checked": true, "bounded": true, "drained": drained(), "heal": healAt, "now": w.Elapsed(),
+		"heal1": heal1, "heal2": heal2, "end1": w.Proj(1), "end2": w.Proj(2),
+		"woff": []int64{w.Woff[1], w.Woff[2]}, "rdoff": []int64{w.Rdoff[1], w.Rdoff[2]}, "panic": len(sum.Panics) > 0})
+	if !drained() {
+		sum.Kinds["not-drained"]++
+	}
+}
+
+// TestCoreStall (C03): the receiving application stops reading at a random point of a transfer for 0.1 s .. 10 min of
+// virtual time; during a sub-interval of the pause (and shortly after) EVERY datagram that carries only ACK / WASK / WINS
+// segments is lost; then the reader resumes and the run settles.
+func TestCoreStall(t *testing.T) {
+	out := vh.OutDir(t)
+	rng := rand.New(rand.NewSource(vh.Seed()*86028121 + 29))
+	runs := vh.EnvInt("CORE_RUNS", 24)
+	tf, err := vh.OpenTraceFile(filepath.Join(out, "core_stall.ndjson"))
+	vh.Must(err)
+	sum := newSummary()
+	for r := 0; r < runs; r++ {
+		cfg := randCfg(rng, false)
+		cfg.RcvWnd = []int{1, 1, 2, 3, 4, 8, 16, 32}[rng.Intn(8)]
+		cfg.Stream = 1
+		if cfg.Mtu < 56 {
+			cfg.Mtu = 56
+		}
+		pause := []int{100, 700, 3000, 20000, 130000, 600000}[rng.Intn(6)]
+		stallRun(t, rng, cfg, pause, rng.Intn(3) == 0, sum, tf, fmt.Sprintf("stall%d", r))
+	}
+	vh.Must(tf.Close())
+	sum.Traces, sum.Lines = tf.N, tf.L
+	vh.WriteJSON(filepath.Join(out, "core_stall.json"), sum)
+}
+
+func onlyControl(w *World, data []byte) bool {
+	segs, _, _ := w.normSegs(1, data)
+	for _, s := range segs {
+		if s.Cmd == 81 {
+			return false
+		}
+	}
+	return len(segs) > 0
+}
+
+func stallRun(t *testing.T, rng *rand.Rand, cfg Cfg, pauseMs int, useUpdate bool, sum *summary, tf *vh.TraceFile, label string) {
+	synctest.Test(t, func(t *testing.T) {
+		w := NewWorld(cfg, boundaryOffset(rng), boundaryOffset(rng), boundaryClock(rng))
+		tr := &vh.Trace{}
+		do := func(a Act) Obs {
+			if !w.Enabled(a) {
+				return Obs{}
+			}
+			obs, in := w.Step(a)
+			if a.Name == "Recv" && obs.Ret == -1 {
+				return obs
+			}
+			record(tr, w, a, obs, in)
+			sum.Steps++
+			sum.Acts[a.Name]++
+			classify(sum, a, obs, in)
+			if obs.Panic != "" {
+				sum.Panics = append(sum.Panics, fmt.Sprintf("%s %+v: %s", label, a, obs.Panic))
+			}
+			return obs
+		}
+		mss := cfg.Mtu - 24
+		next := [3]int{0, 0, 0}
+		flushDue := func(e int) {
+			if useUpdate {
+				ob := do(Act{Name: "Update", E: e})
+				next[e] = ob.Drive
+				if next[e] <= w.Elapsed() {
+					next[e] = w.Elapsed() + 1
+				}
+			} else {
+				ob := do(Act{Name: "Flush", E: e})
+				next[e] = w.Elapsed() + ob.Ret
+			}
+		}
+		pauseAt := rng.Intn(600)           // ms
+		lossFrom := pauseAt + rng.Intn(pauseMs+1)
+		lossTo := lossFrom + []int{0, 600, 2000, 10000, pauseMs}[rng.Intn(5)]
+		resumeAt := pauseAt + pauseMs
+		if lossTo > resumeAt+3000 {
+			lossTo = resumeAt + 3000
+		}
+		endAt := resumeAt
+		if lossTo > endAt {
+			endAt = lossTo
+		}
+		total := (20 + rng.Intn(100)) * mss // bytes to write in all
+		for len(sum.Panics) == 0 && w.Elapsed() < endAt {
+			now := w.Elapsed()
+			for e := 1; e <= 2; e++ {
+				if now >= next[e] {
+					flushDue(e)
+				}
+			}
+			// the writer behaves like a session: admitted only below the send window
+			if w.Woff[1] < int64(total) && w.K[1].WaitSnd() < cfg.SndWnd {
+				n := 1 + rng.Intn(3*mss)
+				if do(Act{Name: "Send", E: 1, A: n}).Ret == 0 && !useUpdate {
+					flushDue(1)
+				}
+			}
+			// network: in order, at once; control-only datagrams are lost during the loss interval
+			for len(w.Net) > 0 {
+				d := w.Net[0]
+				if now >= lossFrom && now < lossTo && onlyControl(w, d.data) {
+					do(Act{Name: "Drop", E: d.dst, A: 1})
+					sum.Kinds["control-dropped"]++
+				} else {
+					do(Act{Name: "Deliver", E: d.dst, A: 1, B: 0})
+				}
+			}
+			if now < pauseAt || now >= resumeAt {
+				for do(Act{Name: "Recv", E: 2, A: 1 + rng.Intn(4*mss)}).Ret >= 0 {
+				}
+			} else {
+				sum.Kinds["paused-iterations"]++
+			}
+			d := next[1] - w.Elapsed()
+			if d2 := next[2] - w.Elapsed(); d2 < d {
+				d = d2
+			}
+			if d < 1 {
+				d = 1
+			}
+			do(Act{Name: "Tick", A: d})
+		}
+		if len(sum.Panics) == 0 {
+			settlePhase(w, tr, do, useUpdate, &next, sum)
+		}
+		tf.WriteTrace(map[string]any{"cfg": cfg, "src": label, "clean": false, "forged": false, "pause": pauseMs, "loss": []int{lossFrom, lossTo}}, tr)
+		sum.Behaviours++
+		sum.Nontrivial++
+		active = nil
+	})
 }
